@@ -340,3 +340,77 @@ def where(ev):
 def short(v, n=160):
     s = sym.fmt(v)
     return s if len(s) <= n else s[: n - 3] + "..."
+
+
+def truth_equiv(literals, formula, atoms):
+    """Is the conjunction `literals` equivalent to `formula`, judged on every assignment of `atoms`?
+    Decided by enumeration (no shape matching): both sides must be decided by each assignment."""
+    import itertools
+
+    atoms = [canon(a) for a in atoms]
+    for bits in itertools.product((True, False), repeat=len(atoms)):
+        g = sym.sat(tuple(zip(atoms, bits)))
+        if sym.inconsistent(g):
+            continue
+        lhs = True
+        for a, p in literals:
+            if sym.lit_holds(g, a, p):
+                continue
+            if sym.lit_holds(g, a, not p):
+                lhs = False
+                break
+            return False
+        if sym.lit_holds(g, formula, True):
+            rhs = True
+        elif sym.lit_holds(g, formula, False):
+            rhs = False
+        else:
+            return False
+        if lhs != rhs:
+            return False
+    return True
+
+
+def _is_private(name):
+    return name.startswith("_") and not (name.startswith("__") and name.endswith("__"))
+
+
+def callers_of(prog, f):
+    """Functions of the program whose body calls `f` (by attribute name for methods, by name for module functions)."""
+    cache = getattr(prog, "_btlint_callers", None)
+    if cache is None:
+        cache = {}
+        for g in prog.all_functions():
+            for n in ast.walk(g.node):
+                if isinstance(n, ast.Call):
+                    if isinstance(n.func, ast.Attribute):
+                        cache.setdefault(("attr", n.func.attr), []).append(g)
+                    elif isinstance(n.func, ast.Name):
+                        cache.setdefault(("name", n.func.id), []).append(g)
+        try:
+            prog._btlint_callers = cache
+        except Exception:
+            pass
+    out = []
+    for g in cache.get(("attr" if f.cls else "name", f.name), []) + (cache.get(("name", f.name), []) if f.cls else []):
+        if g is not f and g not in out:
+            out.append(g)
+    return out
+
+
+def working_for(prog, f, _seen=None):
+    """The functions a private helper works for: a helper extracted from a function inherits that function's role in
+    every who-may-do-this table.  Returns the list of non-private (or table-listed, see `stop`) functions reached by
+    walking up the callers of a private helper; [f] itself for a non-private function; [] when nobody calls it."""
+    if not _is_private(f.name):
+        return [f]
+    _seen = _seen or set()
+    if id(f) in _seen:
+        return []
+    _seen.add(id(f))
+    out = []
+    for g in callers_of(prog, f):
+        for h in working_for(prog, g, _seen):
+            if h not in out:
+                out.append(h)
+    return out
